@@ -165,7 +165,8 @@ def run_seq_specs(ctx, facts, prop, rule, tier, seed, only=None, floor=0):
             widths = {n: w.attrs['width'] for n, w in ins.items()}
             snap_vals = dict(D.values)
             snap_attr = [(ctx_, dict(ctx_.cfg.attr)) for ctx_ in D.seq + D.comb]
-            for seq in sequences(ins, widths, tier, rnd):
+            scripted = list(sp['extra'](p)) if sp.get('extra') else []
+            for seq in itertools.chain(scripted, sequences(ins, widths, tier, rnd)):
                 nseq += 1
                 D.values = dict(snap_vals)
                 for ctx_, at in snap_attr:
